@@ -170,8 +170,15 @@ def minimise(sess, tree, effect):
             if node.kids is None and not (node.tag == "mi" and node.text == "x"):
                 c = gen.mi("x")
                 c.attrs = dict(S.real_attrs(node))
-                S.set_marks(c, [a for a in S.get_marks(node) if not (a[0] == "char" and a[1] is None)])
+                S.set_marks(c, [a for a in S.get_marks(node) if not (a[0] == "char" and a[1] is None) and a[0] != "tokws"])
                 cands.append(c)
+                inner = [a for a in S.get_marks(node) if a[0] == "tokws"]
+                if inner and (node.text or "") != "a b":
+                    # an inner white-space run needs two words around it: canonical two-word token of the same kind
+                    c = gen.N(node.tag, text="a b")
+                    c.attrs = dict(S.real_attrs(node))
+                    S.set_marks(c, [a for a in S.get_marks(node) if a[0] not in ("char", "tokws")] + [["tokws", 1, 1, inner[0][3], inner[0][4], " "]])
+                    cands.append(c)
             for k, _v in S.real_attrs(node):
                 c = node.copy()
                 del c.attrs[k]
@@ -257,6 +264,15 @@ def judge_entity(sess, name, ctx, st=None):
         except Exception:
             pass
     if named["r"] == "ok" and mml.strip_ids(named["v"]) == mml.strip_ids(ref["v"]):
+        if exp.strip(S.XML_WS) == "" and ctx != "attr":
+            # &Tab; / &NewLine; inside token text are MathML white space: one blank between words, nothing at the ends
+            blank = sess.set_only([entity_doc(ctx, " " if ctx == "inner" else "")])
+            if blank is None or blank[0]["r"] != "ok":
+                return "inconclusive", None
+            if mml.strip_ids(named["v"]) != mml.strip_ids(blank[0]["v"]):
+                sig = "entity-table | %s | white-space-in-token:mathml" % name
+                return "violation", core.violation("entity-table", sig, {"t": "entity", "name": name, "ctx": ctx},
+                                                   "&%s; in token text (%s) gave %r, a blank / nothing gives %r" % (name, docs[0], flat_raw(named["v"]), flat_raw(blank[0]["v"])))
         return "agree", None
     if allow and named["r"] == "ok" and r[2]["r"] == "ok" and mml.strip_ids(named["v"]) == mml.strip_ids(r[2]["v"]):
         return "allowance", None
@@ -268,6 +284,13 @@ def judge_entity(sess, name, ctx, st=None):
         detail = "&%s; (HTML5: %s) -> %s: %s" % (name, " ".join("U+%04X" % ord(c) for c in exp), named["r"], err_class(named))
     sig = "entity-table | %s | %s" % (name_class(name), effect)
     return "violation", core.violation("entity-table", sig, {"t": "entity", "name": name, "ctx": ctx}, "%s in %s" % (detail, docs[0]))
+
+
+def flat_raw(xml):
+    try:
+        return "".join(mml.parse(xml).itertext())
+    except Exception:
+        return xml[:200]
 
 
 def flat(xml):
@@ -557,11 +580,12 @@ def run(tier, seed):
         PROP, tier, seed, "exploration", stats, extra,
         ["html.entities.html5 defines which characters a named reference stands for; the XML 1.0 / Namespaces recommendations define which "
          "surface changes leave a document unchanged (white space in element content and inside tags, comments, PIs, quote style, character references, prefixes)",
-         "white space inside token elements and attribute values is never varied; nothing is inserted into empty elements other than mrow",
+         "MathML 3 section 2.1.7: inside token elements (mi mn mo mtext ms) white space is trimmed at both ends and every inner run of space/tab/LF/CR, typed or "
+         "written as a reference, is one blank; white space in attribute values is never varied; nothing is inserted into empty elements other than mrow",
          "MathJax bookkeeping = a class attribute whose value starts with MJX- or data-mjx-, added to elements that have no class attribute",
          "ids are removed from the returned MathML before comparing (random prefix)"],
         t0,
-        rule="metamorphic comparison base spelling vs respelling (9 families of surface atoms + 3 adversarial families) over the hand-written tricky "
+        rule="metamorphic comparison base spelling vs respelling (11 families of surface atoms + 3 adversarial families) over the hand-written tricky "
              "expressions and random textbook-grammar expressions, plus the exhaustive entity table (every name x 3 contexts) and unknown names; "
              "non-trivial = a respelling textually different from its base for which set_mathml succeeded on both and all four observables were compared "
              "(distinct by spelling; at most 60000 hashes are kept per shard, the counter respellings_compared_on_all_observables is the full number), "
